@@ -177,8 +177,23 @@ def check_case(ctx, case):
         ctx.violation('unbounded-iteration', 'get_next_imf exceeded its logical step bound (%s) with max_iters=%s, '
                       'stop_method=%s' % (e, mi, stop), case)
         return 'abort'
-    except EMDSiftCovergeError:
+    except EMDSiftCovergeError as err:
         got = 'raise'
+        # the library itself runs extractions in worker processes (masked and ensemble sifts): the documented error has to survive
+        # the trip back to the caller, i.e. pickling and copying - an error that cannot be rebuilt never arrives (the pool waits)
+        try:
+            import copy as _copy
+            import pickle as _pickle
+            back = _pickle.loads(_pickle.dumps(err))
+            _copy.copy(err)
+            ctx.count('convergence_errors_round_tripped')
+            if type(back) is not type(err) or str(back) != str(err):
+                raise TypeError('came back as %r' % back)
+        except Exception as e2:
+            ctx.case(dig, True)
+            ctx.violation('convergence-error-not-transportable', 'the convergence error raised by get_next_imf cannot be pickled and rebuilt (%s: %s): raised in a '
+                          'worker process of a masked / ensemble sift it never reaches the caller' % (type(e2).__name__, str(e2)[:100]), case)
+            return 'exc'
     except Exception as e:
         ctx.case(dig, True)
         ctx.violation('exception:%s' % type(e).__name__, 'get_next_imf raised %s: %s' % (type(e).__name__, str(e)[:100]), case)
